@@ -285,9 +285,14 @@ fn line(out: &mut impl Write, t: &[&str]) {
 
 fn id(r: &mut Sm) -> [u8; 20] {
     let mut a = [0u8; 20];
-    match r.below(5) {
+    match r.below(9) {
         0 => {}
         1 => a = [0xff; 20],
+        // bytes that are JSON structure when they stand outside a string: brackets, braces, quotes, backslashes
+        5 => a = [0x5b; 20],
+        6 => a = [0x7b; 20],
+        7 => { for x in a.iter_mut() { *x = r.next() as u8; } a[19] = 0x5c; }
+        8 => { for (i, x) in a.iter_mut().enumerate() { *x = if i % 2 == 0 { 0x5d } else { 0x7d }; } a[19] = 0x5c; }
         2 => { for (i, x) in a.iter_mut().enumerate() { *x = (i * 13) as u8; } }
         3 => { for x in a.iter_mut() { *x = r.pick(&[0x22u8, 0x5c, 0x7f, 0x80, 0xc3, 0xe9, 0x0a, 0x00, 0x41]); } }
         _ => { for x in a.iter_mut() { *x = r.next() as u8; } }
@@ -296,7 +301,8 @@ fn id(r: &mut Sm) -> [u8; 20] {
 }
 
 fn sdp(r: &mut Sm) -> String {
-    r.pick(&["", "v=0", "a \"quoted\" \\ back\\slash", "line1\r\nline2\ttab\u{0}\u{1f}", "é ü — ☃ 𝕊 😀", "{\"not\":\"json\"}", "x"]).to_string()
+    r.pick(&["", "v=0", "a \"quoted\" \\ back\\slash", "line1\r\nline2\ttab\u{0}\u{1f}", "é ü — ☃ 𝕊 😀", "{\"not\":\"json\"}", "x",
+        "ends in a backslash\\", "[[[[[[[[[[[[[[[[[[[[[[[[[[[[[[[[[[[[[[[[{{{{{{{{{{", "}}}}]]]]\"\\", "\\\\"]).to_string()
 }
 
 fn gen_in(r: &mut Sm) -> InMessage {
